@@ -362,6 +362,8 @@ class Repo:
                 for t in st.targets:
                     if isinstance(t, ast.Name):
                         ci.class_attrs[t.id] = st.value
+            elif isinstance(st, ast.ClassDef):
+                self._index_class(mi, st)      # nested class (e.g. BlockTimeTag.StackItem), addressable by its simple name
         # instance field annotations / inferred types from `self.x[: T] = ...` in methods
         for fi in ci.methods.values():
             for n in ast.walk(fi.node):
